@@ -176,6 +176,17 @@ def api_call(api, ptype, k):
         arm.append(ham)
         thunk = lambda: oqupy.compute_correlations(s, identity_pt(N), SZ, SZ, slice(None), slice(None),
                                                    initial_state=rho0, progress_type=ptype)
+    elif api == "compute_correlations:single":
+        # one first time only: a single propagation does all the work
+        s = oqupy.TimeDependentSystem(ham)
+        arm.append(ham)
+        thunk = lambda: oqupy.compute_correlations(s, identity_pt(N), SZ, SZ, 0, slice(None),
+                                                   initial_state=rho0, progress_type=ptype)
+    elif api == "compute_correlations_nt":
+        s = oqupy.TimeDependentSystem(ham)
+        arm.append(ham)
+        thunk = lambda: oqupy.compute_correlations_nt(s, identity_pt(N), [SZ, SZ, SZ], [0, 1, slice(None)], ["left", "right", "left"],
+                                                      initial_state=rho0, progress_type=ptype)
     else:
         raise ValueError(api)
     for f in arm:
@@ -184,7 +195,8 @@ def api_call(api, ptype, k):
 
 
 APIS = ["compute_dynamics", "compute_dynamics_with_field", "state_gradient:hamiltonian", "state_gradient:target",
-        "Tempo", "MeanFieldTempo", "PtTempo", "GibbsTempo", "PtTebd", "compute_correlations", "PtTebd:multithread"]
+        "Tempo", "MeanFieldTempo", "PtTempo", "GibbsTempo", "PtTebd", "compute_correlations", "PtTebd:multithread",
+        "compute_correlations:single", "compute_correlations_nt"]
 MANUAL_SITES = {"compute_dynamics": "compute_dynamics", "compute_dynamics_with_field": "compute_dynamics_with_field",
                 "state_gradient:hamiltonian": "compute_gradient_and_dynamics",
                 "state_gradient:target": "compute_gradient_and_dynamics"}
